@@ -1550,7 +1550,10 @@ func (p *Parser) parseHaving(stmt *SelectStatement) error {
 		}
 
 		tok := p.lexer.NextToken()
-		if tok.Type == TokenLIMIT || tok.Type == TokenEOF || tok.Type == TokenWITH {
+		// ORDER BY ends the HAVING clause like LIMIT and WITH do (parseWhere already stops at it);
+		// otherwise "HAVING x > 1 ORDER BY k" kept "ORDER BY k" inside the HAVING text, the predicate
+		// failed to compile and the HAVING filter was silently skipped.
+		if tok.Type == TokenLIMIT || tok.Type == TokenEOF || tok.Type == TokenWITH || tok.Type == TokenOrder {
 			break
 		}
 
